@@ -456,7 +456,7 @@ pub fn capitalize(s: &str) -> String {
 pub fn parse_unix_filename(s: &str) -> &str {
     let last_slash = s.rfind('/');
     match last_slash {
-        Some(idx) => &s[idx..],
+        Some(idx) => &s[idx + 1..],
         _ => s,
     }
 }
